@@ -546,6 +546,23 @@ async fn stream_owner<F: ConnectionFlavor>(transport: &crate::net::HttpTransport
     if found.is_empty() && expect.is_some() { None } else { Some(found) }
 }
 
+/// the same through the public `Transport` face of a helper's MPC transport
+async fn stream_owner_mpc(transport: &MpcHttpTransport, expect: Option<usize>, gate: &Gate) -> Option<Vec<usize>> {
+    use crate::helpers::Transport;
+    let ids = HelperIdentity::make_three();
+    let mut found = vec![];
+    let order: Vec<usize> = expect.into_iter().chain((0..ids.len()).filter(|i| Some(*i) != expect)).collect();
+    for (n, i) in order.iter().enumerate() {
+        let mut s = Box::pin(Transport::receive(transport, ids[*i], (QueryId, gate.clone())).into_bytes_stream());
+        let wait = if n == 0 && expect.is_some() { 2000 } else { 150 };
+        match tokio::time::timeout(std::time::Duration::from_millis(wait), s.next()).await {
+            Ok(_) => found.push(*i),
+            Err(_) => {}
+        }
+    }
+    if found.is_empty() && expect.is_some() { None } else { Some(found) }
+}
+
 fn loopback_identity(env: &Env, src: &mut Src<'_>) -> CaseResult {
     let fl = if src.chance(1, 3) { Flavour::Shards } else { Flavour::Ring };
     let tls = src.chance(2, 3);
@@ -746,7 +763,9 @@ fn loopback_identity(env: &Env, src: &mut Src<'_>) -> CaseResult {
 fn missing_certificates(env: &Env, src: &mut Src<'_>) -> CaseResult {
     use crate::net::test::{ClientIdentities, TestNetwork};
     // non-empty strict subset of {0,1,2}: rustls needs at least one trust anchor
-    let strip: Vec<usize> = match src.below(6) {
+    // (or nothing stripped: the complete configuration, started the way the helper binary does)
+    let strip: Vec<usize> = match src.below(8) {
+        6 | 7 => vec![],
         0 => vec![0],
         1 => vec![1],
         2 => vec![2],
@@ -762,7 +781,10 @@ fn missing_certificates(env: &Env, src: &mut Src<'_>) -> CaseResult {
         0 | 1 => None,
         k => Some(["A", "B", "C"][(k - 1) as usize % 3].to_string()),
     };
-    let kind = src.pick(&["step", "prepare", "collector"]);
+    // how the server gets its socket: a pre-bound listener (what the test fixtures do) or it
+    // binds a port itself (what the helper binary does unless it is handed a socket fd)
+    let self_bound = src.bool();
+    let kind = src.pick(&["step", "step", "prepare", "collector"]);
     let tag = src.u64();
     let gate_name = format!("c20m-{tag:016x}");
     let body: Vec<u8> = {
@@ -776,7 +798,7 @@ fn missing_certificates(env: &Env, src: &mut Src<'_>) -> CaseResult {
         Cred::Cert(i) => Some(i),
         _ => None,
     };
-    let outcome: Result<(Seen, usize), String> = block_on_io(async move {
+    let outcome: Result<(Seen, usize, Option<Vec<usize>>), String> = block_on_io(async move {
         // sockets bound to ephemeral ports (several cases run in parallel)
         let mut test_config = TestConfig::builder().build();
         let TestNetwork { network, servers } = test_config.rings.pop().ok_or("no ring")?;
@@ -788,8 +810,17 @@ fn missing_certificates(env: &Env, src: &mut Src<'_>) -> CaseResult {
         }
         let clients = IpaHttpClient::from_conf(&IpaRuntime::current(), &network, &ClientIdentities::new(false, ShardedHelperIdentity::ONE_FIRST).helper);
         let handler = ok_handler::<HelperIdentity>(reached2.clone());
-        let (_transport, server) = MpcHttpTransport::new(IpaRuntime::current(), HelperIdentity::ONE, h1.config.clone(), view, &clients, Some(HandlerBox::owning_ref(&handler)));
-        let (addr, _join) = server.start_on(&IpaRuntime::current(), h1.socket.take(), ()).await;
+        let mut server_config = h1.config.clone();
+        let listener = if self_bound {
+            // let the kernel pick the port; the fixture's pre-bound socket is released
+            drop(h1.socket.take());
+            server_config.port = None;
+            None
+        } else {
+            h1.socket.take()
+        };
+        let (transport, server) = MpcHttpTransport::new(IpaRuntime::current(), HelperIdentity::ONE, server_config, view, &clients, Some(HandlerBox::owning_ref(&handler)));
+        let (addr, _join) = server.start_on(&IpaRuntime::current(), listener, ()).await;
         let port = addr.port();
         let sid = |i: usize| ShardedHelperIdentity::new(HelperIdentity::make_three()[i], ShardIndex::from(0u32));
         let identity: ClientIdentity<Helper> = match cred_i {
@@ -810,9 +841,16 @@ fn missing_certificates(env: &Env, src: &mut Src<'_>) -> CaseResult {
             b = b.header(HELPER_HEADER, h.as_str());
         }
         let seen = send_one(&client, b.body(Body::from(body)).unwrap()).await;
-        Ok((seen, reached2.load(Ordering::SeqCst)))
+        // under which identity were the records of a step request filed?
+        let owners = if kind == "step" && seen.conn_error.is_none() {
+            let expect = cred_i.filter(|i| !strip2.contains(i));
+            stream_owner_mpc(&transport, expect, &Gate::from(gate2.as_str())).await
+        } else {
+            Some(vec![])
+        };
+        Ok((seen, reached2.load(Ordering::SeqCst), owners))
     });
-    let (seen, hits) = match outcome {
+    let (seen, hits, owners) = match outcome {
         Ok(x) => x,
         Err(e) => return Err(CaseErr::Reject(e)),
     };
@@ -820,8 +858,10 @@ fn missing_certificates(env: &Env, src: &mut Src<'_>) -> CaseResult {
         "server": "helper ring, TLS", "peer_entries_without_certificate": strip.iter().map(|i| ["A", "B", "C"][*i]).collect::<Vec<_>>(),
         "credential": format!("{cred:?}"), "identity_header": header, "request": kind,
         "status": seen.status.map(|s| s.as_u16()), "connection_error": seen.conn_error, "handler_calls": hits,
+        "socket": if self_bound { "bound by the server" } else { "pre-bound listener" },
+        "records_filed_under": owners.as_ref().map(|o| o.iter().map(|i| ["A", "B", "C"][*i]).collect::<Vec<_>>()),
     });
-    let mut labels = vec![format!("stripped:{}", strip.len()), format!("cred:{}", match cred { Cred::None => "none", Cred::Cert(_) if cert_known => "known-cert", _ => "cert-of-stripped-peer" }), format!("req:{kind}")];
+    let mut labels = vec![format!("socket:{}", if self_bound { "self-bound" } else { "pre-bound" }), format!("stripped:{}", strip.len()), format!("cred:{}", match cred { Cred::None => "none", Cred::Cert(_) if cert_known => "known-cert", _ => "cert-of-stripped-peer" }), format!("req:{kind}")];
     if let Some(e) = &seen.conn_error {
         // refused during the handshake: fine for a certificate the server no longer knows
         labels.push(if matches!(cred, Cred::Cert(_)) && !cert_known { "refused_in_handshake".into() } else { "no_verdict:connection_error".to_string() });
@@ -837,7 +877,7 @@ fn missing_certificates(env: &Env, src: &mut Src<'_>) -> CaseResult {
         }
         labels.push("collector_reachable".into());
     } else if !cert_known {
-        if status != StatusCode::UNAUTHORIZED || hits > 0 {
+        if status != StatusCode::UNAUTHORIZED || hits > 0 || owners.as_ref().is_some_and(|o| !o.is_empty()) {
             known_or_violation(env, &format!("peer-route-not-401:missing-cert:{kind}"), format!("a TLS caller without a certificate known to the server was answered {status} (handler calls: {hits}): {case}"), case.clone())?;
         }
         labels.push("unauthenticated_401".into());
@@ -845,9 +885,16 @@ fn missing_certificates(env: &Env, src: &mut Src<'_>) -> CaseResult {
         if status == StatusCode::UNAUTHORIZED {
             known_or_violation(env, &format!("certificate-identity-refused:missing-cert:{kind}"), format!("a caller with a certificate the server knows was answered 401: {case}"), case.clone())?;
         }
+        if let (Cred::Cert(i), "step", Some(o)) = (cred, kind, &owners) {
+            // the identity is the certificate's; a header naming somebody else changes nothing
+            if status.is_success() && o.as_slice() != [i] {
+                known_or_violation(env, "wrong-peer-identity:configured-server:step", format!("records sent over the TLS connection of peer {} were filed under {:?}: {case}", ["A", "B", "C"][i], o.iter().map(|x| ["A", "B", "C"][*x]).collect::<Vec<_>>()), case.clone())?;
+            }
+            labels.push("identity_from_certificate".into());
+        }
         labels.push("known_certificate_served".into());
     }
-    Ok(CaseOk::new(true, &(strip, kind, tag, header.is_some()), case).labels(labels))
+    Ok(CaseOk::new(true, &(strip, kind, tag, header.is_some(), self_bound), case).labels(labels))
 }
 
 fn loopback_available() -> bool {
@@ -871,7 +918,7 @@ pub fn subs(_env: &Env) -> Vec<Sub> {
             .streams(8)
             .shrink_iters(6),
         Sub::random("missing_certificates", 16, 240, 6_000, missing_certificates,
-            "real TLS connections to a helper server (MpcHttpTransport::new + start_on) whose own view of the network lacks the certificate of one or two of the three peers (certificates are optional in network.toml; at least one must remain as trust anchor); caller: no client certificate / certificate of peer i (known or stripped), with or without an identity header; request: step, prepare, echo; oracle: without a certificate the server knows, peer routes answer 401 (or the handshake is refused) and the handler is never reached; a known certificate is not answered 401; echo stays reachable")
+            "real TLS connections to a helper server built from its configuration (MpcHttpTransport::new + start_on), with a pre-bound listener (as the fixtures do) or binding its port itself (as the helper binary does), whose own view of the network is complete or lacks the certificate of one or two of the three peers (certificates are optional in network.toml; at least one must remain as trust anchor); caller: no client certificate / certificate of peer i (known or stripped), with or without an identity header; request: step, prepare, echo; oracle: without a certificate the server knows, peer routes answer 401 (or the handshake is refused) and the handler is never reached and no records are filed; a known certificate is not answered 401 and its step records are filed under the certificate's identity whatever the header says; echo stays reachable")
             .streams(8)
             .shrink_iters(6),
     ]
